@@ -32,6 +32,69 @@ class Query(object):
         self.keyspace = keyspace
 
 
+_PREPARED = {}
+
+
+def make_statement(kind, key, keyspace):
+    """The statement handed to the policy: the plain stand-in, or a REAL SimpleStatement / BoundStatement whose routing
+    key the driver derives itself from the value bound to the single partition-key column (blob or text)."""
+    if kind == "plain-object":
+        return Query(key, keyspace)
+    from cassandra.query import SimpleStatement, PreparedStatement
+    if kind == "simple":
+        return SimpleStatement("SELECT v FROM t WHERE k = %s", routing_key=key, keyspace=keyspace)
+    if keyspace is None:
+        return None          # a bound statement always carries the keyspace of its prepared statement
+    from cassandra.protocol import ColumnMetadata
+    from cassandra.cqltypes import BytesType, UTF8Type
+    value = key
+    ctype = BytesType
+    if kind == "bound-text":
+        try:
+            value = key.decode("utf-8")
+        except UnicodeDecodeError:
+            kind = "bound-blob"
+        else:
+            ctype = UTF8Type
+    ck = (kind, keyspace)
+    if ck not in _PREPARED:
+        _PREPARED[ck] = PreparedStatement(column_metadata=[ColumnMetadata(keyspace, "t", "k", ctype)], query_id=b"id", routing_key_indexes=[0],
+                                          query="SELECT v FROM t WHERE k = ?", keyspace=keyspace, protocol_version=4,
+                                          result_metadata=None, result_metadata_id=None)
+    bound = _PREPARED[ck].bind([value])
+    if bound.routing_key != key:
+        from vlib.run import Inconclusive
+        raise Inconclusive("BoundStatement.routing_key %r differs from the bound value %r (C30's business)" % (bound.routing_key, key))
+    return bound
+
+
+def hashed_token(part, key):
+    from spec import murmur, md5tok
+    return {"murmur3": murmur.token, "random": md5tok.token, "bytes": (lambda k: k)}[part](key)
+
+
+def boundary_probes(world):
+    """(token per Cassandra, key, statement kind): the empty key, one-byte keys, keys whose Murmur3 hash is an edge value."""
+    from spec import murmur, md5tok
+    part = world.part
+    tok = {"murmur3": murmur.token, "random": md5tok.token, "bytes": (lambda k: k)}[part]
+    # Cassandra gives the empty key the partitioner's MINIMUM token (Long.MIN_VALUE / -1 / empty): it precedes every ring token
+    minimum = {"murmur3": murmur.MIN_LONG, "random": -1, "bytes": b""}[part]
+    out = [(minimum, b"", "simple"), (minimum, b"", "bound-blob"), (minimum, b"", "bound-text"), (minimum, b"", "plain-object")]
+    for k in (b"\x00", b"\xff", b"a", b"\x80"):
+        out.append((tok(k), k, "bound-blob" if k != b"a" else "bound-text"))
+    if part == "murmur3":
+        for target in (murmur.MIN_LONG, murmur.MIN_LONG + 1, 0, -1, murmur.MAX_LONG):
+            k = murmur.key_with_hash(target, b"", 0x5EED)
+            out.append((murmur.token(k), k, "simple"))
+    # keys sitting exactly on ring tokens, through real statement objects
+    ring_tokens = set(t for t, _o in world.ring)
+    on_ring = [(t, k) for t, k in world.pool if t in ring_tokens][:3]
+    for t, k in on_ring:
+        out.append((t, k, "bound-blob"))
+    return out
+
+
 class FakeCluster(object):
     def __init__(self, metadata, endpoints):
         self.metadata = metadata
@@ -105,17 +168,41 @@ class Scenario(object):
                 "is_up": dict(("h%d" % i, s) for i, s in enumerate(self.up_states))}
 
     # -- one plan ---------------------------------------------------------------------
-    def observe(self, shuffle, ks, strategy, options, pool_index, via_working_keyspace, phase):
+    def observe(self, shuffle, ks, strategy, options, pool_index, via_working_keyspace, phase, probe=None):
         ctx, world = self.ctx, self.world
         pol, child = self.policies[shuffle]
-        key_tok, key = world.pool[pool_index]
+        stmt_kind = "plain-object"
+        if probe is not None:
+            key_tok, key, stmt_kind = probe
+        else:
+            key_tok, key = world.pool[pool_index]
         start = world.start_index(key_tok)
         want_list, want_set = world.spec_replicas(strategy, options, key_tok)
         drv_replicas = world.driver_replicas(ks, key)
-        if len(drv_replicas) != len(set(drv_replicas)) or set(drv_replicas) != want_set:
-            ctx.count("skipped_ring_where_C26_reports_replica_defect")
+        if probe is not None and len(key) == 0 and world.ring and world.start_index(hashed_token(world.part, key)) != start:
+            # the driver hashes the empty key (Murmur3: 0, Random: |md5('')|) where Cassandra uses the MINIMUM token: another
+            # token range, hence another replica order even where the replica sets coincide - outside C22 (see the assumption)
+            ctx.count("skipped_empty_key_where_driver_token_differs_from_cassandra_minimum")
             return
-        q = Query(key, None if via_working_keyspace else ks)
+        if len(drv_replicas) != len(set(drv_replicas)) or set(drv_replicas) != want_set:
+            if probe is not None and len(key) == 0:
+                ctx.count("skipped_empty_key_where_driver_token_differs_from_cassandra_minimum")
+            else:
+                ctx.count("skipped_ring_where_C26_reports_replica_defect")
+            return
+        q = make_statement(stmt_kind, key, None if via_working_keyspace else ks)
+        if q is None:
+            return
+        if probe is not None:
+            ctx.count("boundary_key_plans_judged")
+            if len(key) == 0:
+                ctx.count("empty_routing_key_plans_judged")
+                if want_set:
+                    ctx.count("empty_routing_key_plans_with_replicas")
+            if stmt_kind != "plain-object":
+                ctx.count("plans_for_real_statement_objects")
+            if stmt_kind.startswith("bound"):
+                ctx.count("plans_with_routing_key_derived_from_a_bound_value")
         del child.recorded[:]
         plan_hosts = list(pol.make_query_plan(ks if via_working_keyspace else "other_ks", q))
         if len(child.recorded) != 1:
@@ -301,6 +388,11 @@ def run_world(ctx, world, configs, rng, n_scenarios, keys_per_ks):
         # phase 1: the non-shuffling policy before any shuffling policy touched the token map
         for ks, s, o, pi, via in picks:
             sc.observe(False, ks, s, o, pi, via, "plain")
+        # boundary keys (empty, one byte, edge hashes, exact ring tokens) through real statement objects
+        probes = boundary_probes(world)
+        for ks, s, o in kss:
+            for pr in probes[:4] + rng.sample(probes[4:], min(3, len(probes) - 4)):
+                sc.observe(False, ks, s, o, None, rng.random() < 0.3, "plain", probe=pr)
         # phase 2: the shuffling policy (same metadata)
         for ks, s, o, pi, via in picks:
             for _rep in range(2):
@@ -310,6 +402,9 @@ def run_world(ctx, world, configs, rng, n_scenarios, keys_per_ks):
             if s == "SimpleStrategy":
                 ctx.count("shared_metadata_replans")
                 sc.observe(False, ks, s, o, pi, via, "shared-after-shuffle")
+        for ks, s, o in kss:
+            for pr in rng.sample(probes, 3):
+                sc.observe(True, ks, s, o, None, False, "shuffle", probe=pr)
         for ks, s, o, pi, via in picks[:4]:
             sc.observe_stepwise(rng.random() < 0.5, ks, pi, rng)
         for variant in ("no-query", "no-routing-key", "no-keyspace"):
@@ -340,6 +435,9 @@ def run(ctx):
                "is consulted, does not); demanded then: no host twice, no host of the child's plan left out")
     ctx.assume("hosts are identified by endpoint (address and port); about a quarter of the worlds place up to three hosts on one "
                "address with different ports")
+    ctx.assume("the empty routing key is a routing key: Cassandra gives it the partitioner's MINIMUM token, i.e. the range of the first "
+               "ring token; where the driver's own token for it (Murmur3: hash 0, Random: |md5('')|) falls into another token range the case "
+               "is skipped and counted - under ByteOrderedPartitioner and wherever both tokens fall into the same range it is judged")
     ctx.assume("DCAware children are populated with hosts ordered by datacenter and an explicit local_dc, so that the populate/"
                "inference defects reported under C21 are not what is observed here; rings on which C26 reports a replica defect "
                "are skipped (counted)")
@@ -372,4 +470,7 @@ def run(ctx):
                           "passthrough_plans_judged": 500, "shared_metadata_replans": 1000,
                           "plans_on_worlds_with_hosts_sharing_an_address": 3000,
                           "plans_where_a_tail_host_shares_the_address_of_a_prefix_replica": 1000,
+                          "boundary_key_plans_judged": 5000, "empty_routing_key_plans_judged": 1500,
+                          "empty_routing_key_plans_with_replicas": 1000, "plans_for_real_statement_objects": 4000,
+                          "plans_with_routing_key_derived_from_a_bound_value": 2000,
                           "stepwise_plans_judged": 2000, "stepwise_state_changes_between_yields": 2000}
